@@ -151,7 +151,20 @@ CHECKS['C19'] = {
     'technique': 'bounded exhaustive (deviation-bounded) configuration-space exploration against a reference model',
 }
 
+CHECKS['C06'] = {
+    'text': 'Every registry instance that provides a derivative (class x option set) at 3 (5 thorough) admissible base '
+            'points, every expression tree of depth <= 2 over 9 linear/nonlinear leaves with 12 unary and 6 binary '
+            'combinators (sum, composition, scalar / vector multiples, pointwise product, powers, the constructors '
+            'taking optional temporaries, functional-times-vector) and block operators over all leaf pairs: '
+            'derivative(x) is a linear operator op.domain -> op.range whose action on EVERY real basis direction '
+            '(C = R^2 sense on complex spaces) equals the twice Richardson-extrapolated central difference.',
+    'note': 'limit statement decided on the fixed grid h = 2^-6, 2^-9, 2^-12 (tolerance 2e-7 relative); points where the '
+            'difference quotients have not converged on that grid are counted as undecided; LinDeformFixedTempl, '
+            'NumericalDerivative, NumericalGradient exempt (approximations by design)',
+    'technique': 'bounded exhaustive exploration (configuration x program space); linearity in the direction decides all directions on the basis',
+}
+
 _PENDING = 'check under construction in this session; not claimed until it runs quietly on the unchanged tree'
 NOT_APPLICABLE = dict((p, _PENDING) for p in
-                      ['C01', 'C02', 'C04', 'C06', 'C11', 'C12',
+                      ['C01', 'C02', 'C04', 'C11', 'C12',
                        'C14', 'C15', 'C18'])
